@@ -33,7 +33,7 @@ func dumpNode(n *html.Node) J {
 	case html.ElementNode:
 		attrs := []interface{}{}
 		for _, a := range n.Attr {
-			attrs = append(attrs, []interface{}{a.Key, a.Val})
+			attrs = append(attrs, []interface{}{a.Key, a.Val, a.Namespace})
 		}
 		return J{"t": "elem", "name": n.Data, "attrs": attrs, "kids": kids}
 	case html.CommentNode:
@@ -98,7 +98,8 @@ func genC14(r *Rng, n int, tier string, emit func(Case)) {
 	attrs := []string{"href", "title", "onclick", "class", "style", "src", "alt", "x\"y", "data-x", "HREF", "id", "xlink:href", "onerror"}
 	vals := []string{"x", "", "javascript:alert(1)", "\"><script>", "a'b", "&quot;", "&lt;b&gt;", "é", "a b", "\r\n", "<", ">"}
 	texts := []string{"hello", "&lt;script&gt;alert(1)&lt;/script&gt;", "&#60;img src=x&#62;", "&amp;lt;b&amp;gt;", "a < b > c", "\"q\" 'q'", "\x00", "\xff\xfe", "é日", "]]>", "&", "&#x3c;", " ", "\r", "</", "<", "<<<", "&lt", "&#0;", "--!>"}
-	allowPool := []string{"b", "i", "a(href title)", "p", "div(class)", "br", "img(src alt)", "span", "A(HREF)", "ul", "li", "h1(id)", "table", "td", "tr", "a", "em(", "x()", "input(value)", "hr"}
+	allowPool := []string{"b", "i", "a(href title)", "p", "div(class)", "br", "img(src alt)", "span", "A(HREF)", "ul", "li", "h1(id)", "table", "td", "tr", "a", "em(", "x()", "input(value)", "hr",
+		"svg", "a(href lang)", "image(href)", "mi(href space id)", "use(href class)", "math", "product-teaser(sku)", "path(d)", "a(href)"}
 	maxd := 4
 	if tier == "thorough" {
 		maxd = 7
@@ -143,7 +144,17 @@ func genC14(r *Rng, n int, tier string, emit func(Case)) {
 			case 10:
 				b.WriteString("</" + els[rr.Intn(len(els))] + ">") // stray end tag
 			default:
-				b.WriteString("<svg><desc><b>x</b></desc><style><!--</style><img src=x>--></style></svg>")
+				// foreign content: the HTML parser splits xlink:* / xml:* / xmlns:* attributes into namespace + local name
+				switch rr.Intn(4) {
+				case 0:
+					b.WriteString("<svg><desc><b>x</b></desc><style><!--</style><img src=x>--></style></svg>")
+				case 1:
+					b.WriteString("<svg><a xlink:href=\"" + vals[rr.Intn(len(vals))] + "\" xml:lang=\"en\" title=t>" + gen(rr, 0) + "</a><image xlink:href=\"/i.png\" href=\"/j.png\"></image></svg>")
+				case 2:
+					b.WriteString("<math><mi xlink:href=\"/m\" xml:space=\"preserve\" id=m1>x</mi><a xlink:href=\"/n\">y</a></math>")
+				default:
+					b.WriteString("<svg xmlns:xlink=\"http://www.w3.org/1999/xlink\"><use xlink:href=\"#s\" class=c></use><product-teaser sku=1 onclick=x>y</product-teaser><admin-panel sku=2>z</admin-panel></svg>")
+				}
 			}
 		}
 		return b.String()
